@@ -24,7 +24,7 @@ SPF_A = 3
 
 def make_dirfile(d, enc, fa=2, fb=2, spf=SPF_A):
     os.makedirs(d)
-    open(os.path.join(d, "format"), "w").write("/VERSION 9\n/ENDIAN little\n/ENCODING %s\na RAW INT16 %d\nb RAW UINT8 1\n/REFERENCE a\n" % (enc, spf))
+    open(os.path.join(d, "format"), "w").write("/VERSION 9\n/ENDIAN little\n/ENCODING %s\na RAW INT16 %d\nb RAW UINT8 1\nhb CONST UINT32 0\n/REFERENCE a\n" % (enc, spf))
     da = struct.pack("<%dh" % (fa * spf), *[1000 + i for i in range(fa * spf)])
     db = bytes(i & 0xff for i in range(fb))
     if enc == "gzip":
@@ -47,10 +47,11 @@ def parse_pass(line):
     m = re.match(r"(\w+) openerr (-?\d+)", line)
     if m:
         r.update(tag=m.group(1), openerr=int(m.group(2))); return r
-    m = re.match(r"(\w+) nf (-?\d+) e (-?\d+)(.*)", line.strip())
+    m = re.match(r"(\w+) nf (-?\d+) e (-?\d+)(?: hb (\d+) he (-?\d+))?(.*)", line.strip())
     if not m:
         r["bad"] = True; return r
-    r.update(tag=m.group(1), nf=int(m.group(2)), e=int(m.group(3)), fields={})
+    r.update(tag=m.group(1), nf=int(m.group(2)), e=int(m.group(3)), fields={}, hb=(int(m.group(4)) if m.group(4) else None), he=(int(m.group(5)) if m.group(5) else 0))
+    m = re.match(r"()()()(.*)", m.group(6))
     for part in m.group(4).split("|")[1:]:
         mm = re.match(r"\s*(\w+) spf (\d+) got (\d+) e (-?\d+) :(.*)", part)
         if mm:
@@ -127,7 +128,15 @@ def main():
             ("lib", "gzip", ["write", None] + lib_ops(6, ["s", "f", "c"])),
             ("lib", "text", ["write", None, "p:a:4", "p:b:1", "s", "p:a:5", "p:b:2", "f", "p:a:3", "m", "p:a:6"]),
             ("lib", "sie", ["write", None, "p:a:4", "p:b:1", "s", "p:a:5", "p:b:2", "f", "p:a:3", "m", "p:a:6"]),
-            ("lib", "sie", ["write", None, "p:a:2", "p:a:1", "s", "p:a:3", "f", "p:a:2"], 1)]
+            ("lib", "sie", ["write", None, "p:a:2", "p:a:1", "s", "p:a:3", "f", "p:a:2"], 1),
+            # metadata that change between flushes (a CONST heartbeat), observed by fresh readers at every call
+            ("lib", "none", ["write", None, "h", "p:a:3", "f", "h", "p:a:6", "m", "h", "p:a:3", "f", "h", "s"]),
+            # appends larger than one stdio block: write(2) calls cut samples, lines and records
+            ("lib", "none", ["write", None, "p:a:%d" % (2500 + 3 * rng.randrange(40)), "s", "p:a:2400", "f"]),
+            ("lib", "text", ["write", None, "p:a:%d" % (2500 + 3 * rng.randrange(40)), "s", "p:a:2400", "f"]),
+            ("lib", "sie", ["write", None, "p:a:%d" % (1500 + 3 * rng.randrange(40)), "s", "p:a:1500", "f"]),
+            ("lib", "sie", ["write", None, "p:a:%d" % (1400 + rng.randrange(100)), "s", "p:a:1300", "f"], 1),
+            ("lib", "gzip", ["write", None, "p:a:3000", "s", "p:a:3000", "f"])]
     if chk.thorough:
         scen.append(("lib", "bzip2", ["write", None, "p:a:6", "p:b:2", "s", "p:a:3", "f", "p:a:3", "p:b:1", "c", "p:a:6"]))
         scen.append(("lib", "lzma", ["write", None, "p:a:6", "p:b:2", "s", "p:a:3", "f", "p:a:3", "p:b:1", "c", "p:a:6"]))
@@ -184,6 +193,7 @@ def main():
             continue
         # ---- the property text
         last_nf = {"fresh": -1, "held": -1}
+        last_hb = [0]
         for label, fr, he, gr, sz in obs:
             for tag, p in (("fresh", fr), ("held", he)):
                 if p.get("bad") or "openerr" in p:
@@ -193,6 +203,12 @@ def main():
                 if p["e"] != 0:
                     spec_bad.append(("%s/%s/%s-nframes-error" % (kind, enc, tag), "%s reader %s: gd_nframes fails with %d" % (tag, label, p["e"]), dict(desc, at=label, kind="impl-vs-spec")))
                     continue
+                if tag == "fresh" and p.get("hb") is not None:
+                    if p["he"] != 0 or p["hb"] < last_hb[0]:
+                        spec_bad.append(("%s/%s/fresh-metadata-absent-or-older" % (kind, enc),
+                                         "fresh reader %s: the CONST the writer rewrites at every flush reads %s (error %s) after %d had been seen: the format file is not entirely old or entirely new" % (
+                                             label, p["hb"], p["he"], last_hb[0]), dict(desc, at=label, kind="impl-vs-spec", seen=p["raw"][:300])))
+                    last_hb[0] = max(last_hb[0], p["hb"] or 0)
                 if p["nf"] < last_nf[tag]:
                     spec_bad.append(("%s/%s/%s-nframes-decreases" % (kind, enc, tag), "%s reader %s: gd_nframes went from %d to %d" % (tag, label, last_nf[tag], p["nf"]),
                                      dict(desc, at=label, kind="impl-vs-spec")))
@@ -226,17 +242,28 @@ def main():
             mown.append((sid, desc, stops, obs))
         if enc == "sie" and spf == 1:
             nv = sum(int(c.split(":")[2]) for c in cmd if c.startswith("p:a:"))
-            rcs, so = vlib.sh([drv], inp=("S %d %d\n" % (2 * spf, nv)).encode(), timeout=60)
-            states = [[int(x) for x in l.split()[2:]] for l in so.splitlines() if l.startswith("S ")]
-            last = 0
+            n0 = 2 * spf
+            cand = []
             for label, fr, he, gr, sz in obs:
+                a = (fr.get("fields") or {}).get("a")
+                L = len(a["v"]) if a else 0
+                cand.append([j for j in (2 * (L - n0) - 1, 2 * (L - n0)) if 0 <= j <= 2 * nv] if a else [])
+            qs = sorted(set(j for c in cand for j in c))
+            rcs, so = vlib.sh([drv], inp="".join("S1 %d %d %d\n" % (n0, nv, j) for j in qs).encode(), timeout=300)
+            states = {}
+            for l in so.splitlines():
+                if l.startswith("S "):
+                    f = l.split()
+                    states[int(f[1])] = [int(x) for x in f[2:]]
+            last = 0
+            for (label, fr, he, gr, sz), cj in zip(obs, cand):
                 a = (fr.get("fields") or {}).get("a")
                 if a is None:
                     continue
-                idx = [i for i, st_ in enumerate(states) if st_ == a["v"] and i >= last]
+                idx = [j for j in cj if states.get(j) == a["v"] and j >= last]
                 if not idx:
-                    model_bad.append(("model/sie", "fresh reader %s decodes %s, which is not a state of the record-level model C18/Sie.v at or after step %d" % (label, a["v"], last),
-                                      dict(desc, kind="model-vs-impl", correspondence="C18 sie_observed")))
+                    model_bad.append(("model/sie", "fresh reader %s decodes %d samples ending %s, which is not a state of the record-level model C18/Sie.v at or after step %d" % (
+                        label, len(a["v"]), a["v"][-3:], last), dict(desc, kind="model-vs-impl", correspondence="C18 sie_observed")))
                     break
                 last = idx[0]
                 nontriv.add((sid, "sie-state", last))
